@@ -1,9 +1,23 @@
 """C20 — validate() accepts what the writer produces and reports real conflicts.
 
-Proof (Props/C20.lean): `validate_overlap` (whenever two non-empty, non-NOBITS sections with non-zero
-offsets intersect in the file, the model's `validate` — whose overlap condition is the generated
-expression — contains an `overlap i j` complaint; interval lemma) and `validate_skew`; the silent half
-(`validate_silent`) follows from C04's layout theorems as far as they are discharged — see evidence.
+Proof (Props/C20.lean, helper lemmas Lemmas/ValidateL.lean); the overlap condition, the
+find_prog_section match and the address comparison are the generated expressions:
+ * validate_overlap (+ validate_overlap_only_if): for all objects and all i < j: both sections non-NOBITS,
+   sizes > 0, offsets > 0, file ranges intersect as naturals (no wrap: off+size < 2^64) => overlap(i,j) is
+   reported (interval lemma + index bookkeeping of the nested loops); and nothing else is.
+ * validate_skew (+ only_if): PT_LOAD with filesz > 0 whose vaddr differs from the address the program
+   section found at its offset assigns to that offset => conflict(h) is reported.
+ * validate_overlap_witness_prefix: the pre-fix condition ((type & SHT_NOBITS) == 0) missed two SHT_REL
+   sections at one offset (F10, fixed by deacba8).
+ * validate_silent: no complaint on any object satisfying `LayoutOk` (Lemmas/ValidateL.lean);
+   validate_silent_save: `LayoutOk` holds for the object left by a successful save of a flat
+   writer-domain object (C04.save_layoutOk: any number of sections/segments; hypotheses: no wrap, < 2^16
+   sections, section 0 null / NULL-typed sections empty, distinct segment indices, `layoutDomB`);
+   validate_silent_reloaded: validate reads only type/size/offset/address of sections and
+   type/filesz/offset/vaddr of segments (validate_congr), so the reloaded object is silent too PROVIDED
+   the loader reports those fields as saved — that composition with the loader model (C02/C05) is
+   NOT done here and is covered by the correspondence check; objects with nested segments are not
+   covered by validate_silent_save (C04's NestedSegmentStatement).
 Correspondence: family load (`validate` op).  Oracle: (a) no complaint after save of a writer-domain
 program and after reload; (b) after forcing section j onto section i's offset in the saved bytes
 (independent byte patch) and reloading: >= 1 overlap complaint whenever both are non-empty and occupy
@@ -16,7 +30,10 @@ from families import c03 as _c03
 PROPERTY = "C20"
 FAMILY = "load"
 LEAN_MODULE = "ElfioVerif.Props.C20"
-THEOREMS = ["ElfioVerif.C20.validate_overlap"]
+THEOREMS = ["ElfioVerif.C20.validate_overlap", "ElfioVerif.C20.validate_overlap_only_if",
+            "ElfioVerif.C20.validate_skew", "ElfioVerif.C20.validate_skew_only_if",
+            "ElfioVerif.C20.validate_overlap_witness_prefix", "ElfioVerif.C20.validate_silent",
+            "ElfioVerif.C20.validate_silent_save", "ElfioVerif.C20.validate_silent_reloaded"]
 SITES = ["validate", "find_prog", "is_offset_in_section", "get_virtual_addr"]
 RULE = ("writer-domain programs x 4 configurations: save, validate, reload, validate (silence expected); then for "
         "sampled (quick) / all (thorough) ordered pairs of sections: force an overlap by rewriting one sh_offset in "
